@@ -286,7 +286,7 @@ class IniConfigParser(ConfigFileParser):
     def parse(self, stream:TextIO) -> Dict[str, Any]:
         """Parses the keys and values from an INI config file."""
         # parse with configparser to allow multi-line values
-        config = configparser.ConfigParser()
+        config = configparser.ConfigParser(interpolation=None)
         try:
             config.read_string(stream.read())
         except Exception as e:
